@@ -19,6 +19,8 @@ pub struct FnClauses {
     pub decreases: String,
     pub extra: String,
     pub loops: BTreeMap<usize, String>,
+    /// ghost name of the iterator of the k-th loop (`for x in NAME: expr`)
+    pub loop_iters: BTreeMap<usize, String>,
     pub closures: BTreeMap<usize, String>,
     pub hints: Vec<(bool, String, String)>,
     pub no_canary: bool,
@@ -79,6 +81,13 @@ pub fn parse(text: &str) -> Result<BTreeMap<String, FnClauses>, String> {
                     let k: usize = arg.parse().map_err(|_| format!("line {}: bad loop ordinal", ln + 1))?;
                     f.loops.insert(k, String::new());
                     Cur::Loop(k)
+                }
+                "@loop_iter" => {
+                    let mut it = arg.split_whitespace();
+                    let k: usize = it.next().unwrap_or("").parse().map_err(|_| format!("line {}: bad loop ordinal", ln + 1))?;
+                    let name = it.next().ok_or_else(|| format!("line {}: @loop_iter <k> <name>", ln + 1))?;
+                    f.loop_iters.insert(k, name.to_string());
+                    Cur::None
                 }
                 "@closure" => {
                     let k: usize = arg.parse().map_err(|_| format!("line {}: bad closure ordinal", ln + 1))?;
